@@ -109,6 +109,19 @@ class Adapter:
             n = o.unpack(buffer=bytes(buf), offset=0, **self.kw)      # 'default' path: no version given
         return o, n
 
+    def unpack_raw(self, buf):
+        """like unpack, but hands the caller's buffer object (bytearray / memoryview) to the library as it is"""
+        if self.kind == 'construct':
+            return self.target.parse(buf), None
+        if self.kind == 'payload' and self.path == 'decoder':
+            return self.unpack(buf)
+        o = self.target()
+        if self.kind == 'payload' and self.path == 'explicit':
+            n = o.unpack(buffer=buf, offset=0, message_version=self.target.MESSAGE_VERSION, **self.kw)
+        else:
+            n = o.unpack(buffer=buf, offset=0, **self.kw)
+        return o, n
+
     def attrs(self, o):
         if self.kind == 'construct':
             if hasattr(o, '_asdict'):
